@@ -15,7 +15,7 @@ extern "C" {
 LR* g_lr;
 void vp_setup() { g_lr = new LR(P{0, 0}); }
 
-static inline int side(const P* p) noexcept
+VP_INLINE int side(const P* p) noexcept
 {
     // m_left is the first member, m_right the second: the only two places a functor / handle may point to
     const char* base = reinterpret_cast<const char*>(g_lr);
@@ -26,6 +26,7 @@ static inline int side(const P* p) noexcept
 
 void vp_writer()
 {
+#pragma unroll
     for (int i = 0; i < NWRITES; i++) {
         vp_gadd(G_STARTED, 1);
         g_lr->modify([](P& p) noexcept {
@@ -45,6 +46,7 @@ void vp_writer()
 void vp_reader()
 {
     int prev = 0;
+#pragma unroll
     for (int k = 0; k < NREADS; k++) {
         int ret0 = vp_g(G_RETURNED);      // modifies that had returned before lock_shared began
 #if defined(READ_TRY)
